@@ -36,7 +36,7 @@ def one(sd: Path):
     shutil.rmtree(wt, ignore_errors=True)
     return res
 
-sel = [d for d in sorted(SEEDS.iterdir()) if d.is_dir() and (not args or d.name in args or d.name.split("-")[0] in args)]
+sel = [d for d in sorted(SEEDS.iterdir()) if d.is_dir() and not d.name.startswith("_") and (not args or d.name in args or d.name.split("-")[0] in args)]
 with ThreadPoolExecutor(12) as ex:
     results = list(ex.map(one, sel))
 for r in results:
